@@ -51,7 +51,7 @@ KINDS = ['int64', 'Int64', 'float64', 'Float64', 'float32', 'bool',
 RETYPES = {
     'int64': ['int32', 'float64', 'Int64', 'ostr_num'],
     'float64': ['float32x', 'Float64'],
-    'bool': ['boolean'],
+    'bool': ['boolean', 'int_of_bool'],
     'ostr': ['string', 'pstr', 'cat'],
     'Int64': ['int64'],
     'boolean': ['bool'],
@@ -64,6 +64,11 @@ ENTRIES = ['check_dataframe', 'assertDataFramesEqual',
 def value_for(kind):
     if kind in ('int64', 'Int64'):
         return st.integers(-1000, 1000)
+    if kind == 'bigint':
+        # 64-bit identifiers: beyond the integers a float64 can tell apart
+        return st.one_of(st.integers(2**53, 2**53 + 40),
+                         st.integers(-2**62 - 40, -2**62),
+                         st.integers(2**63 - 41, 2**63 - 1))
     if kind in ('float64', 'Float64', 'float32'):
         return st.integers(-10**6, 10**6).map(lambda k: k / 8.0)
     if kind in ('bool', 'boolean'):
@@ -76,6 +81,11 @@ def value_for(kind):
                                 '2020-02-29T12:00:00.123456',
                                 '1970-01-01T00:00:00'])
     raise ValueError(kind)
+
+
+def has_big(c):
+    return c['kind'] in ('int64', 'Int64') and any(
+        v is not None and abs(v) > 10**6 for v in c['cells'])
 
 
 def nullable(kind):
@@ -109,6 +119,9 @@ def case_strategy(draw, tier):
     for i in range(ncols):
         kind = draw(st.sampled_from(KINDS))
         vs = value_for(kind)
+        big = kind in ('int64', 'Int64') and draw(st.integers(0, 5)) == 0
+        if big:
+            vs = value_for('bigint')
         cells = [draw(vs) for _ in range(n)]
         if nullable(kind) and n and draw(st.integers(0, 2)) == 0:
             cells[draw(st.integers(0, n - 1))] = None
@@ -118,7 +131,7 @@ def case_strategy(draw, tier):
     edit = draw(st.sampled_from([
         'identical', 'identical', 'cell_big', 'cell_big', 'cell_small',
         'null_to_value', 'value_to_null', 'rename', 'retype', 'retype',
-        'move', 'add_row', 'drop_row', 'add_col', 'drop_col', 'shuffle']))
+        'retype_changed', 'move', 'add_row', 'drop_row', 'add_col', 'drop_col', 'shuffle']))
     peff = 6 if p is None else p
     info = {'edit': edit}
     data_cols = [c for c in act['cols'] if c['name'] != 'k']
@@ -165,6 +178,10 @@ def case_strategy(draw, tier):
                         c['cells'][i] = base + 3.0 * 10.0 ** -min(peff, 3)
                         if k == 'float32':
                             c['cells'][i] = base + 8.0
+                    elif k in ('int64', 'Int64') and old is not None and (
+                            abs(old) >= 2**53):
+                        c['cells'][i] = old + (draw(st.sampled_from(
+                            [1, 1, 2, 3])) if old < 2**63 - 4 else -1)
                     else:
                         new = draw(value_for(k).filter(lambda v: v != old))
                         c['cells'][i] = new
@@ -175,7 +192,8 @@ def case_strategy(draw, tier):
     elif edit == 'retype':
         cand = [c for c in data_cols if c['kind'] in RETYPES
                 and not (c['kind'] in ('Int64', 'boolean')
-                         and None in c['cells'])]
+                         and None in c['cells'])
+                and not has_big(c)]
         if not cand:
             edit = info['edit'] = 'identical'
         else:
@@ -183,6 +201,27 @@ def case_strategy(draw, tier):
             info['col'] = c['name']
             info['to'] = draw(st.sampled_from(RETYPES[c['kind']]))
             c['retype'] = info['to']
+    elif edit == 'retype_changed':
+        # another (compatible) dtype AND a value that only exists in that
+        # dtype: a fraction in a float column checked against integers, a 7
+        # in an integer column checked against booleans
+        cand = [c for c in data_cols if c['kind'] in ('int64', 'bool')
+                and not has_big(c)]
+        if not cand or n == 0:
+            edit = info['edit'] = 'identical'
+        else:
+            c = draw(st.sampled_from(cand))
+            i = draw(st.integers(0, n - 1))
+            info['col'], info['row'] = c['name'], i
+            if c['kind'] == 'int64':
+                c['retype'] = info['to'] = 'float64'
+                c['patch'] = {'row': i, 'value': c['cells'][i] + (draw(
+                    st.sampled_from([0.75, 0.5, -0.75])) if peff >= 1
+                    else 2.75)}
+            else:
+                c['retype'] = info['to'] = 'int_of_bool'
+                c['patch'] = {'row': i, 'value': draw(
+                    st.sampled_from([7, 2, -1]))}
     elif edit == 'move':
         if len(act['cols']) < 2:
             edit = info['edit'] = 'identical'
@@ -272,6 +311,19 @@ def valid_desc(d):
             if c.get('retype') is not None and c['retype'] not in RETYPES.get(
                     c['kind'], []):
                 return False
+            pt = c.get('patch')
+            if pt is not None:
+                if (c.get('retype') not in ('float64', 'int_of_bool')
+                        or set(pt) != {'row', 'value'}
+                        or not isinstance(pt['row'], int)
+                        or not 0 <= pt['row'] < d['n']
+                        or isinstance(pt['value'], bool)
+                        or not isinstance(pt['value'], (int, float))
+                        or not abs(pt['value']) <= 10**6 + 1):
+                    return False
+                if c['retype'] == 'int_of_bool' and not isinstance(
+                        pt['value'], int):
+                    return False
             for v in c['cells']:
                 if v is None:
                     if not nullable(c['kind']):
@@ -279,8 +331,11 @@ def valid_desc(d):
                     continue
                 k = c['kind']
                 if k in ('int64', 'Int64'):
-                    if isinstance(v, bool) or not isinstance(v, int) or abs(
-                            v) > 10**6:
+                    if isinstance(v, bool) or not isinstance(v, int) or not (
+                            -2**63 <= v < 2**63):
+                        return False
+                    if abs(v) > 10**6 and c.get('retype') not in (
+                            None, 'Int64', 'int64', 'ostr_num'):
                         return False
                 elif k in ('float64', 'Float64', 'float32'):
                     if isinstance(v, bool) or not isinstance(
@@ -363,6 +418,12 @@ def valid(case):
     for c in case['act']['cols']:
         if c.get('retype') == 'float32x' and o['precision'] in (0, 1, 2):
             return False
+        if c.get('patch') is not None and c['retype'] == 'float64':
+            # clear of the rounding grey zone, like every float difference
+            dd = abs(c['patch']['value'] - c['cells'][c['patch']['row']])
+            if dd < 2.5 * 10.0 ** -(6 if o['precision'] is None
+                                    else o['precision']):
+                return False
     return case.get('entry') in ENTRIES
 
 
@@ -421,6 +482,11 @@ def build_col(c):
         s = pd.Series(cells, dtype='str')
     elif rt == 'cat':
         s = pd.Series(pd.Categorical(cells))
+    elif rt == 'int_of_bool':
+        s = s.astype('int64')
+    if c.get('patch') is not None:
+        s = s.copy()
+        s.iloc[c['patch']['row']] = c['patch']['value']
     return s
 
 
@@ -479,6 +545,8 @@ def cell_equal(a, b, p):
     if a is None or b is None:
         return a is None and b is None
     if isinstance(a, bool) or isinstance(b, bool):
+        return a == b
+    if isinstance(a, int) and isinstance(b, int):
         return a == b
     if isinstance(a, (int, float)) and isinstance(b, (int, float)):
         return abs(float(a) - float(b)) <= 10.0 ** -(p + 1)
@@ -557,6 +625,10 @@ def rcols_vals(c):
     elif rt == 'float32x':
         vals = [None if v is None else F.py_float(v, 'float32')
                 for v in vals]
+    elif rt == 'int_of_bool':
+        vals = [int(v) for v in vals]
+    if c.get('patch') is not None:
+        vals[c['patch']['row']] = c['patch']['value']
     return vals
 
 
